@@ -139,7 +139,9 @@ pub fn scenarios(thorough: bool) -> Vec<Scenario> {
                             _ => {}
                         }
                         tree.push(Entry::file("outside-bystander", "not involved").mtime(1_200_000_009, 9));
-                        let mut args: Vec<String> = vec!["-r".into(), "--driver".into(), d.into(), "-w".into(), "2".into()];
+                        // worker count varies with the scenario (1 is a boundary: a single consumer)
+                        let wk = ["1", "2", "4"][(h % 3) as usize];
+                        let mut args: Vec<String> = vec!["-r".into(), "--driver".into(), d.into(), "-w".into(), wk.into()];
                         let spell = |name: &str, is_dir: bool, is_src: bool| -> String {
                             match sp {
                                 "slash-src" if is_src && is_dir => format!("{}/", name),
